@@ -2,7 +2,7 @@
    Only statements, closed by `exact`, with Print Assumptions beneath each. *)
 From Coq Require Import List String Bool Arith.
 From SV.Gen Require Import NodeAccess.
-From SV.Conc Require Import NodeLock Lockset.
+From SV.Conc Require Import NodeLock NodeTree Lockset.
 Import ListNotations.
 
 (* every schedule, every number of goroutines, every assignment of the documented reads that take the read lock around
@@ -29,14 +29,35 @@ Theorem C16_step_preserves_invariant : forall i st, Inv st -> Inv (step i st).
 Proof. exact step_inv. Qed.
 Print Assumptions C16_step_preserves_invariant.
 
-(* MarshalJSON as pinned (fast path: isRaw() then toString() with no read lock) is NOT covered: a schedule exists on which
-   it returns a text made of the new length and the old pointer *)
+(* two levels: operations on the root (0, o) and Get / Index / GetByPath chains (S k, o) = OpGet on the root, then o on child k,
+   the children being raw nodes with their own mutex (load-once parse): every read at every node returns its sequential
+   result, idle nodes are raw or completely parsed, and a thread is at a child only while the root is parsed *)
+Theorem C16_tree_concurrent_reads_eq_sequential :
+  forall n (progs : nat -> list mop) (sched : list nat),
+    (forall i, i < n -> msafe (progs i) = true) ->
+    let st := mrun sched (minit n progs) in
+    (forall i k r, i < n -> In r (mres (mth st i) k) -> good r = true) /\
+    (forall k, (forall i, i < n -> mpc (mth st i) = Idle \/ cur (mth st i) <> k) ->
+               nds st k = node_raw \/ nds st k = node_parsed) /\
+    (forall i, i < n -> cur (mth st i) <> 0 -> nds st 0 = node_parsed) /\
+    (forall i k r, i < n -> In r (mres (mth st i) k) -> is_val r = true -> nds st k = node_parsed).
+Proof. exact tree_concurrent_reads_eq_sequential. Qed.
+Print Assumptions C16_tree_concurrent_reads_eq_sequential.
+
+Example C16_tree_nonvacuous :
+  let progs := fun i => match i with 0 => [(1, OpGet); (0, OpRaw)] | 1 => [(1, OpRaw); (2, OpGet)] | _ => [(0, OpGet)] end in
+  (forall i, i < 3 -> msafe (progs i) = true).
+Proof. intros progs i _. destruct i as [|[|i]]; reflexivity. Qed.
+
+(* regression statement: MarshalJSON as it was before fca300b (fast path: isRaw() then toString() with no read lock) is
+   NOT safe: a schedule exists on which it returns a text made of the new length and the old pointer *)
 Theorem C16_marshal_fastpath_refuted :
   exists n progs sched i r, i < n /\ In r (res (th (run sched (init n progs)) i)) /\ good r = false.
 Proof. exact marshal_fastpath_refuted. Qed.
 Print Assumptions C16_marshal_fastpath_refuted.
 
-(* a failing parse under the lock overwrites the node (and its mutex pointer) and never unlocks: waiting readers hang *)
+(* regression statement: parseRaw as it was before 30f25f0 - a failing parse under the lock overwrites the node (and its
+   mutex pointer) and never unlocks: waiting readers hang *)
 Theorem C16_parse_error_leaks_lock_refuted :
   exists n progs sched,
     let es := erun false sched (mkE (init n progs) false) in
@@ -54,11 +75,11 @@ Theorem C16_lockset_discipline :
 Proof. exact lockset_discipline. Qed.
 Print Assumptions C16_lockset_discipline.
 
-Theorem C16_lockset_unjustified_subset :
-  forallb (fun x => String.eqb (snd x) "KF-C16-marshal-fastpath" || String.eqb (snd x) "KF-C16-parse-error-deadlock") unjustified = true.
+Theorem C16_lockset_unjustified_none : unjustified = [].
 Proof. exact lockset_unjustified_subset. Qed.
-Print Assumptions C16_lockset_unjustified_subset.
+Print Assumptions C16_lockset_unjustified_none.
 
+(* while MarshalJSON has the unlocked fast path in the regenerated table, the discipline is violated there ... *)
 Theorem C16_lockset_marshal_fastpath_refuted :
   marshal_fastpath_unlocked = true ->
   In (("Node.toString", ("p", ("read", 0)), "Node.MarshalJSON"))%string violations /\
@@ -66,14 +87,13 @@ Theorem C16_lockset_marshal_fastpath_refuted :
 Proof. exact lockset_marshal_fastpath_refuted. Qed.
 Print Assumptions C16_lockset_marshal_fastpath_refuted.
 
-Theorem C16_lockset_parse_error_refuted :
-  parse_error_plain_overwrite = true ->
-  In (("Node.parseRaw", ("*", ("write", 2)), "Node.checkRaw"))%string violations.
-Proof. exact lockset_parse_error_refuted. Qed.
-Print Assumptions C16_lockset_parse_error_refuted.
+(* ... and on the current tree both defect sites have their repaired shape *)
+Theorem C16_lockset_defect_sites_repaired : marshal_fastpath_unlocked = false /\ parse_error_plain_overwrite = false.
+Proof. exact lockset_defect_sites_repaired. Qed.
+Print Assumptions C16_lockset_defect_sites_repaired.
 
 (* the anchors of the protocol, by shape of the regenerated code: assign writes l, p and then stores t atomically, last;
-   parseRaw does everything between lock() and the deferred unlock(); Raw and encodeRaw read the text under rlock() *)
+   parseRaw does everything between lock() and the deferred unlock(); Raw, encodeRaw and MarshalJSON read the text under rlock() *)
 Theorem C16_protocol_shapes : shapes_ok = true.
 Proof. exact shapes_ok_true. Qed.
 Print Assumptions C16_protocol_shapes.
